@@ -60,8 +60,9 @@ Definition as_str (t : tree) : res string := match t with VStr s => Ok s | _ => 
 Definition as_list (t : tree) : res (list tree) := match t with VList l => Ok l | _ => GoPanic 3 end.
 Definition as_map (t : tree) : res (list (string * tree)) := match t with VMap m => Ok m | _ => GoPanic 3 end.
 
-(* cast.ToIntE / ToInt64E: nil is 0, a float is truncated, a bool is 0/1; a string would be parsed
-   (not modelled: error) *)
+(* cast.ToIntE / ToInt64E: nil is 0, a float is converted with int(f) (spf13/cast v1.5.1 caste.go:
+   "case float64: return int(s), nil": truncation toward zero; out of range - NaN, +-Inf, |f| >= 2^63 -
+   math.MinInt64 on amd64, F64.f_trunc_Z), a bool is 0/1; a string would be parsed (not modelled: error) *)
 Definition to_int (t : tree) : res Z :=
   match t with
   | VNil => Ok 0
